@@ -331,6 +331,16 @@ def register(S):
             return ctx.ret(ctx.ip.cast(ctx.st, "FloatToFloat", a, rty))
         return ctx.ret(ctx.top_ret())
 
+    @S.pat(r"^core::num::<impl (u|i)\w+>::from_str_radix$")
+    def from_str_radix(ctx):
+        radix = ctx.args[1]
+        rty = ctx.ret_ty()
+        t = ty_of_json(rty["args"][0]) if rty and rty.get("args") else None
+        tag = frozenset([("parsed_radix", radix.cval() if isinstance(radix, IntVal) else None)])
+        s_ok, s_err = ctx.st, ctx.st.copy()
+        v = IntVal.top(t, tags=tag) if t is not None else Top(None, tags=tag)
+        return ctx.ret_states([(s_ok, ok(v)), (s_err, err(Top(None)))])
+
     @S.pat(r"^core::num::<impl u32>::to_be_bytes$")
     def to_be_bytes(ctx):
         a = ctx.args[0]
